@@ -686,6 +686,22 @@ impl Module for M {
                                     }
                                     ctx.expect(r.rec.map == want, "C07:text-picture-not-shifted-on-bounded-target", || format!("box {}: {} vs {} pixels", fmt_rect(&b), r.rec.map.len(), want.len()));
                                     ctx.expect(bn == n + d, "C07:text-return-not-shifted-on-bounded-target", || format!("box {}: {:?} vs {:?} + {:?}", fmt_rect(&b), bn, n, d));
+                                    // the same box on a draw_iter-only target
+                                    let mut r = R1::<Rgb565>::new(b);
+                                    let bn = moved.draw(&mut r).expect("recording target does not fail");
+                                    ctx.expect(r.rec.map == want, "C07:text-picture-not-shifted-on-bounded-target", || format!("draw_iter-only box {}: {} vs {} pixels", fmt_rect(&b), r.rec.map.len(), want.len()));
+                                    ctx.expect(bn == n + d, "C07:text-return-not-shifted-on-bounded-target", || format!("draw_iter-only box {}: {:?} vs {:?} + {:?}", fmt_rect(&b), bn, n, d));
+                                }
+                                // degenerate boxes (empty, flat, disjoint), both kinds of target: nothing is drawn, the returned
+                                // position is unchanged
+                                for (name, b) in degenerate_boxes(&mbb) {
+                                    let want = restrict_map(&shift_map(&m, d), &b);
+                                    let (mut d1, mut d2) = (R1::<Rgb565>::new(b), R2::<Rgb565>::new(b));
+                                    let n1 = moved.draw(&mut d1).expect("recording target does not fail");
+                                    let n2 = moved.draw(&mut d2).expect("recording target does not fail");
+                                    ctx.count("tr:degenerate-bounded-target");
+                                    ctx.expect(d1.rec.map == want && d2.rec.map == want, "C07:text-picture-not-shifted-on-bounded-target", || format!("{} box {}: {} / {} vs {} pixels", name, fmt_rect(&b), d1.rec.map.len(), d2.rec.map.len(), want.len()));
+                                    ctx.expect(n1 == n + d && n2 == n + d, "C07:text-return-not-shifted-on-bounded-target", || format!("{} box {}: {:?} / {:?} vs {:?} + {:?}", name, fmt_rect(&b), n1, n2, n, d));
                                 }
                             }
                             ctx.expect(mbb == bb.translate(d), "C07:text-box-not-shifted", || format!("{} vs {} moved", fmt_rect(&mbb), fmt_rect(&bb)));
